@@ -12,7 +12,7 @@ from vf.model import encode, layout
 
 # 'ah' also reads as a hexadecimal literal (A with a trailing H, in either letter case): it is a register all the same
 REGS = ['a', 'b', 'sp', 'ah']
-LABELS = {'lab_k': 0x21, 'lab_x': 0x33, 'zed': 0x44}     # 'zed' and 'lab_k' are also enumeration keys in some sets
+LABELS = {'lab_k': 0x21, 'lab_x': 0x33, 'zed': 0x44, 'nil0': 0x55}     # 'zed' and 'lab_k' are also enumeration keys in some sets
 KEYS = {'zed': 1, 'one': 2, 'lab_k': 3}
 
 # priority classes the statement fixes (lower = tried earlier)
@@ -53,8 +53,9 @@ def alt_pool(rng):
                                             'argument': {'size': 8, 'byte_align': True, 'value_dict': {k: 0xC0 + v for k, v in KEYS.items()}}}}},
         'indnum': {'type': 'indirect_numeric', 'argument': dict(a8), 'bytecode': bc()},
         'defer': {'type': 'deferred_numeric', 'argument': dict(a8), 'bytecode': bc()},
-        'key': {'type': 'enumeration', 'bytecode': {'size': 5, 'value_dict': {k: 20 + v for k, v in KEYS.items()}},
-                'argument': {'size': 8, 'byte_align': True, 'value_dict': {k: 0xE0 + v for k, v in KEYS.items()}}},
+        # 'nil0' stands for 0 in every table it is in (it is a key like the others - and a label of that name exists as well)
+        'key': {'type': 'enumeration', 'bytecode': {'size': 5, 'value_dict': dict({k: 20 + v for k, v in KEYS.items()}, nil0=0)},
+                'argument': {'size': 8, 'byte_align': True, 'value_dict': dict({k: 0xE0 + v for k, v in KEYS.items()}, nil0=0)}},
         'num': {'type': 'numeric', 'argument': dict(a8), 'bytecode': bc()},
         'numbc': {'type': 'numeric_bytecode', 'bytecode': {'size': 5, 'min': 0, 'max': 15}},
         'adr': {'type': 'address', 'argument': {'size': 16, 'byte_align': True}, 'bytecode': bc()},
@@ -94,8 +95,15 @@ def operand_texts(rng):
         {'cls': 'indnum', 'e': e, 'text': f'[{sp}{e}{sp}]'},
         {'cls': 'indnum', 'e': LABELS[lab], 'text': f'[{lab}]', 'lab': lab},
         {'cls': 'defer', 'e': e, 'text': f'[[{e}]]'},
+        # every operator and a character literal are expression text inside these forms as well
+        {'cls': 'indnum', 'e': e * 2, 'text': f'[{e}*2]', 'opform': True},
+        {'cls': 'indnum', 'e': 65, 'text': "['A']", 'opform': True},
+        {'cls': 'defer', 'e': e | 1, 'text': f'[[{e}|1]]', 'opform': True},
+        {'cls': 'indoff', 'r': r, 'e': e << 1, 'text': f'[{r}+{e}<<1]', 'opform': True},
+        {'cls': 'idx', 'r': r, 'e': e * 3, 'text': f'{r}+{e}*3', 'opform': True},
         {'cls': 'word', 'w': lab, 'e': LABELS[lab], 'text': lab},              # a label; also a key when spelled like one
         {'cls': 'word', 'w': 'one', 'e': None, 'text': 'one'},                 # a key that is not a label
+        {'cls': 'word', 'w': 'nil0', 'e': LABELS['nil0'], 'text': 'nil0', 'zero_key': True},     # a key whose codes are all 0, and a label
         {'cls': 'num', 'e': e, 'text': str(e)},
         # a literal beyond the 0..15 range of the numeric_bytecode alternative: which alternative / variant takes a numeric
         # text does not depend on its value (the chosen one then rejects it)
@@ -210,7 +218,8 @@ class C13(core.Check):
         'later-candidate-after-nonaccepting-earlier', 'amb:disallowed-pair-mirrored-is-allowed', 'amb:two-specific-entries-accept',
         'amb:key-vs-relative-address', 'amb:decorated-register-vs-numeric', 'amb:implied-operand-entry-vs-shorter-variant',
         'amb:out-of-range-literal-with-later-accepting-candidate', 'primer:earlier-statement-took-a-later-variant', 'amb:listed-combination-named-like-the-disallowed-pair', 'amb:index-key-vs-index-expression', 'amb:register-that-reads-as-a-number',
-        'amb:register-vs-numeric-enumeration', 'amb:register-vs-numeric-enumeration-with-argument-table-only']}
+        'amb:register-vs-numeric-enumeration', 'amb:register-vs-numeric-enumeration-with-argument-table-only',
+        'amb:key-that-stands-for-0-vs-label', 'operator-inside-bracketed-or-indexed-form']}
 
     def gen_isa(self, rng, force_empty=False, force_dp=False, force_ne=False, force_idx=False):
         self._dp_pair = None
@@ -530,6 +539,10 @@ class C13(core.Check):
                 for o, op in zip(operands, stmt['ops']):
                     if o['cls'] == 'word' and op.get('key') and o['e'] is not None:
                         tags.add('amb:key-vs-label')
+                    if o.get('opform'):
+                        tags.add('operator-inside-bracketed-or-indexed-form')
+                    if o.get('zero_key') and op.get('key'):
+                        tags.add('amb:key-that-stands-for-0-vs-label')
                     if o['cls'] == 'word' and op.get('key') and stmt['spec'] is None:
                         for v_ in encode.variants_of(isa, 'amb'):
                             for sn in ((v_.get('operands') or {}).get('operand_sets') or {}).get('list', []):
